@@ -2,6 +2,7 @@
    Only statements.  Model: coq/sys/Convert.v (skops/cli/_convert.py); the serialiser
    and the audit enter as oracles (k_saved, k_untrusted). *)
 From Skv Require Import PyStr Json Fs FsFacts Convert ConvertFacts.
+From Skv Require CodecDump CodecLoad CodecShareFacts CodecFacts SinkFacts CliCodecFacts.
 
 (* no -o (or -o ""): the archive goes to <cwd>/<stem of the input's last component>.skops *)
 Theorem C17_default_path : forall c,
@@ -129,3 +130,21 @@ Theorem C17_nonvacuous :
   /\ warnings (fst (convert_run (ex_ccfg None (Ok [9])))) <> [].
 Proof. exact cfits_examples. Qed.
 Print Assumptions C17_nonvacuous.
+
+(* C17_equiv with the oracle premise discharged on the C05 fragment: k_saved is instantiated with the dump model and the
+   zip container (read-back oracle); the output file then unzips to an archive that the load model maps back to the
+   unpickled value v itself *)
+Theorem C17_result_loads_equal_partial :
+  forall (zipc : nat -> nat -> CodecDump.archive -> bytes) (unzip : bytes -> option CodecDump.archive),
+    (forall method level a, unzip (zipc method level a) = Some a) ->
+    forall e c st reg cur (F : CodecLoad.cfacts) (D : CodecDump.denv) base v method level b,
+    cfits c st = true -> same_file c = false -> k_outdir_ok c = true ->
+    CodecDump.dn_cur D = cur -> CodecShareFacts.reg_ok reg cur = true -> CodecShareFacts.facts_sane F = true ->
+    CodecFacts.c05_guard F D base v = true ->
+    k_saved c = SinkFacts.save_model zipc D base v method level -> k_saved c = Ok b ->
+    let fin := apply_ops e st (convert_ops c) in
+    exists a, fget (out_path c) (files fin) = Some b
+              /\ unzip b = Some a
+              /\ CodecLoad.loads_model (CodecLoad.cenv_of reg cur F a) (CodecDump.a_schema a) = Ok v.
+Proof. exact CliCodecFacts.convert_result_loads_equal_partial. Qed.
+Print Assumptions C17_result_loads_equal_partial.
